@@ -101,7 +101,7 @@ static void triple_body(int m, int n, int k, int pa, int pb)
 	}
 	CHECK(A.Rows() == (unsigned)m && A.Columns() == (unsigned)n && A.Square() == (m == n), "Rows/Columns/Square", "shape_accessors");
 	// scalars
-	for(double sc : {2.0, -0.5, 4.0})
+	for(double sc : {2.0, -0.5, 4.0, 3.0, -7.0, 0.1, 1.5})
 	{
 		Rows ms(m, std::vector<double>(n)), md(m, std::vector<double>(n));
 		for(int i = 0; i < m; i++)
@@ -150,7 +150,7 @@ static void triple_body(int m, int n, int k, int pa, int pb)
 		T -= W;
 		T -= W;
 		CHECK(eqv(T, dv), "Vector -=", "elementwise");
-		for(double sc : {2.0, -0.5, 4.0})
+		for(double sc : {2.0, -0.5, 4.0, 3.0, -7.0, 0.1, 1.5})
 		{
 			std::vector<double> ms(n), md(n);
 			for(int j = 0; j < n; j++) { ms[j] = vn[j] * sc; md[j] = vn[j] / sc; }
